@@ -4,6 +4,7 @@ CONSTANTS
   CogThetas <- AllThetas
   BpKs = {2, 3, 4, 5, 6, 7, 8, 9}
   CorrSizes = {4, 5, 6, 7}
+  RectSizes = {4, 5, 6}
   MaxPad = 3
   Emit = TRUE
 INVARIANT CoGIsFirstMoment
